@@ -44,7 +44,13 @@ def _p11a(ctx):
         ready = [(nid, si) for (nid, si, rv) in x.aggs(r'AsyncSink::Ready$') if x.home(nid) == g.root_inst]
         notready = [(nid, si) for (nid, si, rv) in x.aggs(r'AsyncSink::NotReady$') if x.home(nid) == g.root_inst]
         serr = [(nid, si) for (nid, si, rv) in x.aggs(r'SendError::SendError$|mpsc::SendError') if x.home(nid) == g.root_inst]
-        ctx.floor('P11a', len(ready) + len(notready) + len(serr), 3, 'result constructions of Sink::start_send')
+        ctx.floor('P11a', len(ready) + len(notready) + len(serr), 1, 'result constructions of Sink::start_send')
+        # each of the three answers must be possible at all: an arm that no path of the inlined send can reach any more
+        # (e.g. Disconnected, when the attempt stops looking at the no-reader signal) is an answer the sink never gives
+        for (kind, found, what) in (('Ready', ready, 'accept a message'), ('NotReady', notready, 'report a full queue (back-pressure)'),
+                                    ('SendError', serr, 'report that every receiver is gone')):
+            ctx.add('P11a', 'T-MAP', ss, bool(found), 'start_send can answer %s' % kind if found else
+                    'no path of start_send constructs %s: the sink can never %s' % (kind, what), flavour=fl, sub='can-' + kind.lower())
         for (nid, si) in ready:
             ok = x.dom(pubs, nid)
             ctx.add('P11a', 'T-MAP', ss, ok, 'AsyncSink::Ready only after a value was published' if ok else
